@@ -118,6 +118,9 @@ def run(ck, prog):
     ck.rule("R14.3", "next_token dispatch: reference punctuation spellings and token-class representatives reach the reference kind")
     ck.rule("R14.4", "TokenKind::is_trivia and SyntaxKind::is_trivia agree under From<TokenKind>")
     ck.rule("R14.5", "preprocessor directive table == reference directives")
+    ck.rule("R14.9", "digit-leading identifiers: the scanner entered on a digit can produce an identifier")
+    ck.rule("R14.8", "block comment scanner keeps a nesting depth: `/*` opens, `*/` closes, the token ends at depth 0")
+    ck.rule("R14.7", "string literal scanner: transitions required for valid literals (escapes, closing quote)")
     ck.rule("R14.6", "integer lexemes are validated with a full-width unsigned parse (signed only behind a leading '-')")
 
     lx = lexer_tables(ck, prog)
@@ -248,6 +251,18 @@ def run(ck, prog):
 
     # R14.6 -----------------------------------------------------------------------
     integer_width(ck, prog)
+    # R14.9 -----------------------------------------------------------------------
+    nb = find_method(prog, "number")
+    ck.anchor(nb is not None, "Lexer::number not found")
+    kinds = may_return_kinds(prog, nb.path)
+    ck.ob("R14.9", "digit-leading-identifier", "Id" in kinds,
+          "the scanner entered on a digit can produce Id (it returns %s)" % sorted(kinds)[:8],
+          msg="Lexer::number (the scanner entered on a digit) can only return %s: a digit-leading identifier such as `0foo` or "
+              "`2x4` is split into an integer and an identifier" % sorted(kinds))
+    # R14.7 -----------------------------------------------------------------------
+    string_scanner(ck, prog)
+    # R14.8 -----------------------------------------------------------------------
+    comment_scanner(ck, prog)
 
     # R14.5 -----------------------------------------------------------------------
     dirs = lx["directives"]
@@ -315,6 +330,193 @@ def integer_width(ck, prog):
                   msg="%s validates an integer lexeme by parsing it as %s: hexadecimal/binary/decimal literals with bit 63 set "
                       "(0x8000000000000000 ..) are reported as lexical errors [%s]" % (b.path, ty, b.where(i)))
     ck.floor("R14.6", "integer parse sites reachable from Lexer::number", sites, 1)
+
+
+def find_method(prog, name):
+    for p, b in prog.bodies.items():
+        if p.startswith("syntax::lexer::Lexer") and p.endswith("::" + name) and not b.parent:
+            return b
+    return None
+
+
+def string_scanner(ck, prog):
+    """R14.7: transition table of Lexer::string, read off its MIR by evaluating one loop iteration for every (state of
+    the loop's flag locals, character class) pair, compared with the transitions the TableGen reference requires for
+    *valid* literals: a backslash escapes exactly the next character (one of \\ \' \" \t \n), an unescaped quote ends the
+    literal as StrVal, every other character continues. Transitions of invalid literals are not constrained."""
+    from .. import mirexec
+    b = find_method(prog, "string")
+    ck.anchor(b is not None, "Lexer::string not found")
+    eat_blocks = [i for i, t in b.calls() if (Body.callee(t) or "").endswith("Scanner::<'a>::eat")]
+    ck.anchor(len(eat_blocks) == 1, "Lexer::string no longer reads one character per loop iteration (Scanner::eat sites: %d)" % len(eat_blocks))
+    head = eat_blocks[0]
+
+    def oracle_for(ch):
+        fed = []
+
+        def oracle(fr, callee, args, t):
+            if callee.endswith("Scanner::<'a>::eat"):
+                if fed:
+                    raise mirexec.Unsupported("second character read in one iteration")
+                fed.append(1)
+                return ("none",) if ch is None else ("some", ("int", ord(ch)))
+            if callee.endswith("Lexer::<'a>::error"):
+                return ("variant", "Error", -1, [])
+            raise mirexec.Unsupported("call to %s" % callee)
+        return oracle
+
+    # state locals: locals assigned before the loop head and again inside the loop
+    def run_from(locals_in, ch):
+        fr = mirexec.Frame(b, oracle_for(ch))
+        fr.locals = dict(locals_in)
+        fr.locals[1] = ("self", ())
+        out = fr.run(head, stop_blocks=(head,))
+        return out, fr.locals
+
+    # initial state: run from the entry to the loop head
+    fr0 = mirexec.Frame(b, oracle_for(None))
+    fr0.locals[1] = ("self", ())
+    r0 = fr0.run(0, stop_blocks=(head,)) if head != 0 else ("at", head)
+    ck.anchor(r0[0] == "at", "Lexer::string does not reach its character loop")
+    init = {k: v for k, v in fr0.locals.items() if v is not None and v[0] == "int"}
+    # explore the reachable states
+    classes = [("backslash", "\\"), ("quote", '"'), ("apostrophe", "'"), ("t", "t"), ("n", "n"), ("other", "a"),
+               ("CR", "\r"), ("LF", "\n"), ("EOF", None)]
+    table = {}
+    states = [tuple(sorted(init.items()))]
+    seen = set(states)
+    while states:
+        st = states.pop()
+        for cname, ch in classes:
+            try:
+                out, loc = run_from(dict(st), ch)
+            except mirexec.Unsupported as e:
+                ck.anchor(False, "Lexer::string could not be evaluated (%s)" % e)
+            if out[0] == "at":
+                st2 = tuple(sorted((k, loc[k]) for k, _ in st))
+                table[(st, cname)] = ("continue", st2)
+                if st2 not in seen and len(seen) < 16:
+                    seen.add(st2)
+                    states.append(st2)
+            else:
+                v = out[1]
+                table[(st, cname)] = ("end", v[1] if v and v[0] == "variant" else str(v))
+    ck.count(len(table))
+    s0 = tuple(sorted(init.items()))
+    # reference obligations for valid literals
+    def step(st, cname):
+        return table.get((st, cname))
+    # normal state: other chars stay, quote ends with StrVal
+    for cname in ("other", "t", "n", "apostrophe"):
+        r = step(s0, cname)
+        ck.ob("R14.7", "normal:%s" % cname, r == ("continue", s0), "outside an escape `%s` continues in the same state" % cname,
+              msg="Lexer::string: an ordinary character (%s) outside an escape does not leave the scanner in its initial state: %s" % (cname, r))
+    r = step(s0, "quote")
+    ck.ob("R14.7", "normal:quote", r == ("end", "StrVal"), "an unescaped quote ends the literal as StrVal",
+          msg="Lexer::string: an unescaped `\"` does not end the literal as StrVal: %s" % (r,))
+    r = step(s0, "backslash")
+    ok = r is not None and r[0] == "continue" and r[1] != s0
+    ck.ob("R14.7", "normal:backslash", ok, "a backslash enters the escape state",
+          msg="Lexer::string: a backslash does not start an escape: %s" % (r,))
+    if ok:
+        esc = r[1]
+        for cname in ("backslash", "quote", "apostrophe", "t", "n"):
+            r2 = step(esc, cname)
+            ck.ob("R14.7", "escape:%s" % cname, r2 == ("continue", s0),
+                  "the escape \\%s is consumed and the scanner is back in its initial state" % cname,
+                  msg="Lexer::string: after a backslash, `%s` (a valid escape) does not return the scanner to its initial state "
+                      "(%s): %s" % (cname, r2, {"backslash": 'a literal ending in an escaped backslash, "a\\\\", is not terminated by its closing quote',
+                                                "quote": "an escaped quote ends the literal"}.get(cname, "the escape is rejected or mis-scanned")))
+    ck.floor("R14.7", "string scanner transitions evaluated", len(table), 18)
+
+
+def comment_scanner(ck, prog):
+    """R14.8: block comments nest. Lexer::block_comment must keep a nesting depth: its per-iteration transition table
+    (state = the integer locals of the loop, input = the character read and the character after it) is read off the
+    MIR and compared with: `*` `/` closes one level, `/` `*` opens one, anything else keeps the depth; the comment token
+    ends exactly when the depth returns to zero. A scanner that searches for the first terminator cannot nest."""
+    from .. import mirexec
+    b = find_method(prog, "block_comment")
+    ck.anchor(b is not None, "Lexer::block_comment not found")
+    calls = [(i, Body.callee(t) or "", t) for i, t in b.calls()]
+    until = [c for _, c, _ in calls if c.endswith("::eat_until")]
+    eats = [i for i, c, _ in calls if c.endswith("Scanner::<'a>::eat")]
+    if until and not eats:
+        ck.ob("R14.8", "nesting", False,
+              msg="Lexer::block_comment skips to the first terminator (Scanner::eat_until) and keeps no nesting depth: in "
+                  "`/* a /* b */ c */` the comment ends at the first `*/` and ` c */` is lexed as tokens")
+        return
+    ck.anchor(len(eats) == 1, "Lexer::block_comment: cannot find its one-character-per-iteration loop")
+    head = eats[0]
+
+    def run_iter(locals_in, c1, c2):
+        consumed = [0]
+
+        def oracle(fr, callee, args, t):
+            if callee.endswith("Scanner::<'a>::eat"):
+                if consumed[0]:
+                    raise mirexec.Unsupported("second eat() in one iteration")
+                consumed[0] = 1
+                return ("none",) if c1 is None else ("some", ("int", ord(c1)))
+            if callee.endswith("::eat_if"):
+                pat = args[1] if len(args) > 1 else None
+                if pat is None or pat[0] != "int" or consumed[0] != 1:
+                    raise mirexec.Unsupported("eat_if with a non-character pattern")
+                hit = c2 is not None and ord(c2) == pat[1]
+                if hit:
+                    consumed[0] = 2
+                return ("int", 1 if hit else 0)
+            raise mirexec.Unsupported("call to %s" % callee)
+        fr = mirexec.Frame(b, oracle)
+        fr.locals = dict(locals_in)
+        fr.locals[1] = ("self", ())
+        out = fr.run(head, stop_blocks=(head,))
+        return out, fr.locals, consumed[0]
+
+    fr0 = mirexec.Frame(b, lambda *a: (_ for _ in ()).throw(mirexec.Unsupported("call before the loop")))
+    fr0.locals[1] = ("self", ())
+    try:
+        r0 = fr0.run(0, stop_blocks=(head,))
+    except mirexec.Unsupported as e:
+        ck.anchor(False, "Lexer::block_comment could not be evaluated (%s)" % e)
+    ck.anchor(r0[0] == "at", "Lexer::block_comment does not reach its loop")
+    named = {i for i, l in enumerate(b.raw.get("locals", [])) if l.get("n") and l.get("n") != "self"}
+    ints = {k: v for k, v in fr0.locals.items() if v is not None and v[0] == "int" and k in named}
+    ck.anchor(len(ints) == 1, "Lexer::block_comment: expected exactly one integer state variable (the nesting depth), found %d" % len(ints))
+    dl = list(ints)[0]
+    d0 = ints[dl][1]
+    ck.ob("R14.8", "initial-depth", d0 == 1, "the depth starts at 1 after the opening `/*`",
+          msg="Lexer::block_comment starts with nesting depth %d" % d0)
+    n = 0
+    for d in (1, 2, 3):
+        for c1 in ("*", "/", "a", None):
+            for c2 in ("*", "/", "a", None):
+                try:
+                    out, loc, used = run_iter({dl: ("int", d)}, c1, c2)
+                except mirexec.Unsupported as e:
+                    ck.anchor(False, "Lexer::block_comment could not be evaluated (%s)" % e)
+                n += 1
+                if c1 is None:
+                    ok = out[0] == "return"
+                    want = "the scanner stops at the end of input"
+                else:
+                    if (c1, c2) == ("*", "/"):
+                        nd, nu = d - 1, 2
+                    elif (c1, c2) == ("/", "*"):
+                        nd, nu = d + 1, 2
+                    else:
+                        nd, nu = d, 1
+                    if nd == 0:
+                        ok = out[0] == "return" and used == nu and out[1] and out[1][0] == "variant" and out[1][1] == "BlockComment"
+                        want = "the comment ends here as BlockComment after %d characters" % nu
+                    else:
+                        ok = out[0] == "at" and used == nu and loc.get(dl) == ("int", nd)
+                        want = "depth %d -> %d, %d characters consumed" % (d, nd, nu)
+                ck.ob("R14.8", "step:d%d:%s%s" % (d, c1 or "EOF", c2 or "EOF"), ok, want,
+                      msg="Lexer::block_comment at nesting depth %d reading `%s` followed by `%s`: expected %s, the scanner does %s/%s "
+                          "consuming %d" % (d, c1, c2, want, out[0], loc.get(dl), used))
+    ck.count(n)
+    ck.floor("R14.8", "comment scanner transitions evaluated", n, 48)
 
 
 def token_to_syntax(prog, fb):
